@@ -133,6 +133,7 @@ is_6531_local (const char *start, const char *end)
                 }
 
                 if ((ch = utf8_decode_next (&u)) >= 0) {
+                    EAV_VERIF_AT(is_6531_local_fws)
                     if (ch > 0x007f)
                         break;
 
